@@ -352,7 +352,15 @@ func genHistory(r *rand.Rand, p storeProfile, names []string, nOps int) []storeO
 		x := r.Intn(100)
 		switch {
 		case x < 42:
-			date += int64(r.Intn(100))
+			// dates are caller-supplied metadata, NOT arrival times: mostly increasing, often out of order or equal
+			switch r.Intn(4) {
+			case 0:
+				date = 1700000000 + int64(r.Intn(2000000)) - 1000000
+			case 1:
+				// same date again
+			default:
+				date += int64(r.Intn(100))
+			}
 			nto := r.Intn(3)
 			to := make([]string, nto)
 			for i := range to {
@@ -487,6 +495,24 @@ func runStoreHistory(c *core.Ctx, m *core.Model, r *rand.Rand, p storeProfile, h
 		wantEvM = append(wantEvM, evm...)
 		wantEvF = append(wantEvF, evf...)
 		c.Compared(2)
+		// implementation-only contract first, so that a real defect yields a failing input and not just a divergence
+		if strings.HasPrefix(om, "panic") || strings.HasPrefix(of, "panic") || om == "nil-nil" || of == "nil-nil" || strings.HasPrefix(om, "duplicate-id") || strings.HasPrefix(of, "duplicate-id") {
+			c.Fail("store-contract", append([]string{}, trace...), "mem: "+om+" file: "+of+"  (panic / nil result without error / an id handed out twice for one mailbox)", "")
+			return
+		}
+		if maxkb == 0 && om != of && o.kind != "visit" {
+			c.Fail("backends-equivalent", append([]string{}, trace...), "mem: "+om+"  file: "+of, "")
+		}
+		if o.kind == "latest" && strings.HasPrefix(om, "msg:") {
+			// 'latest' is the last entry of the listing, on both back-ends
+			for _, be := range []*backend{bm, bf} {
+				ms, _ := be.st.GetMessages(o.box)
+				lm, err := be.st.GetMessage(o.box, "latest")
+				if err == nil && lm != nil && len(ms) > 0 && lm.ID() != ms[len(ms)-1].ID() {
+					c.Fail("latest-is-last", append([]string{}, trace...), fmt.Sprintf("%s store: latest = %s but the listing ends with %s", be.kind, lm.ID(), ms[len(ms)-1].ID()), "")
+				}
+			}
+		}
 		if om != wm {
 			c.Diverge("mem-store", append(append([]string{}, trace...), "--> last op on the memory store"), om, wm)
 			return
@@ -498,13 +524,6 @@ func runStoreHistory(c *core.Ctx, m *core.Model, r *rand.Rand, p storeProfile, h
 		if wm != ws || wf != wsf {
 			c.Diverge("model-vs-spec", append([]string{}, trace...), "mem="+wm+" file="+wf, "spec="+ws+" specF="+wsf)
 			return
-		}
-		if strings.HasPrefix(om, "panic") || strings.HasPrefix(of, "panic") || om == "nil-nil" || of == "nil-nil" || strings.HasPrefix(om, "duplicate-id") || strings.HasPrefix(of, "duplicate-id") {
-			c.Fail("store-contract", append([]string{}, trace...), "mem: "+om+" file: "+of, "")
-			return
-		}
-		if maxkb == 0 && om != of && o.kind != "visit" {
-			c.Fail("backends-equivalent", append([]string{}, trace...), "mem: "+om+"  file: "+of, "")
 		}
 		if len(evm) > 0 || strings.Contains(wm, "notExist") {
 			nontrivial = true
